@@ -19,6 +19,7 @@ MAIN = {
     "forcond": "x := 1\nfor x > 0 { tick(0) }",
     "recursion": "func r(n) { tick(0)\n if n > 0 { r(n - 1) } }\nfor { r(200) }",
     # a binary call tree of depth 62: practically endless, and not one backward jump is ever executed
+    "finishes": "tick(0)\n1",
     "calltree": "func ct(n) { tick(0)\n if n > 0 { ct(n - 1)\n ct(n - 1) } }\nct(62)",
     "mapcb": "for { [1, 2, 3].map(func(x) { tick(0)\n x }) }",
     "eachcb": "[1].each(func(x) { for { tick(0) } })",
@@ -77,6 +78,10 @@ def judge(res, bound_ms):
         return None
     if res.get("advanced"):
         return "script code kept running after the call returned: ticks advanced %s" % json.dumps(res["advanced"])
+    if res.get("err") == "nil" and res.get("after_return"):
+        return None   # the cancellation came after the call had returned: success is the specified outcome
+    if res.get("after_return") and not res.get("cancelled_after"):
+        return "the main code finishes at once, yet the call ended as %r %r before the context was cancelled" % (res.get("err"), res.get("msg", "")[:100])
     if res.get("err") == "nil":
         return "the call returned success although its context was cancelled"
     if res.get("err") == "ctxtext" and res.get("msg") not in KNOWN_CTXTEXT:
@@ -111,10 +116,12 @@ def run(cx):
     rows = []
     for i, sc in enumerate(scens):
         s = sc["scen"]
-        at = {"deadline": 0, "tick3": 3, "tick40": 40, "reuse_idle": 1000000, "reuse_during": 3, "reuse_wait": 0}[s["at"]]
+        at = {"deadline": 0, "tick3": 3, "tick40": 40, "reuse_idle": 1000000, "reuse_during": 3, "reuse_wait": 0, "afterreturn": 1000000}[s["at"]]
         row = {"id": i, "scen": s, "src": "1" if s["main"] == "crosswait" else script(s), "cancel_at": at, "deadline_ms": 60, "settle_ms": settle}
         if s["at"].startswith("reuse_"):
             row["reuse"] = s["at"][6:]
+        if s["at"] == "afterreturn":
+            row["after_return"] = True
         rows.append(row)
     sin = cx.path("scen.ndjson")
     vlib.write_ndjson(sin, rows)
